@@ -743,7 +743,7 @@ def shards(tier, seed):
         parts = 2 if tier == 'quick' else 3
         for k in range(parts):
             out.append({'kind': 'systematic', 'version': v, 'n': 0, 'part': k, 'parts': parts, 'cap': 250 if tier == 'quick' else 2500,
-                        'sub': 1 if tier == 'quick' else 12, 'budget_s': 150 if tier == 'quick' else 3000})
+                        'sub': 2 if tier == 'quick' else 12, 'budget_s': 150 if tier == 'quick' else 3000})
     return out
 
 
